@@ -130,3 +130,79 @@ func TestKvcBoundedAggregates(t *testing.T) {
 	check("select substr(key, 0, 1) as g, strlen(value) as n, sum(n) as s, group_concat(n, ',') as c where key ^= 'a' | key ^= 'b' group by g, n",
 		[]string{`["s:a" "s:9" "int64:18" "s:9,9"]`, `["s:b" "s:3" "int64:3" "s:3"]`})
 }
+
+// the expression rewrite preserves values (C04): every arithmetic tree of the shapes below over the
+// leaves {int(value), float(value), 2, 3, 0.5}, evaluated before and after ExpressionOptimizer on
+// pairs whose values keep float arithmetic exact
+func TestKvcBoundedRewrite(t *testing.T) {
+	leaves := []string{"int(value)", "float(value)", "2", "3", "0.5"}
+	ops := []string{"+", "-", "*", "/"}
+	var exprs []string
+	for _, a := range leaves {
+		for _, b := range leaves {
+			for _, c := range leaves {
+				if !(strings.Contains(a+b+c, "value")) {
+					continue
+				}
+				for _, o1 := range ops {
+					for _, o2 := range ops {
+						exprs = append(exprs, "("+a+" "+o1+" "+b+") "+o2+" "+c, a+" "+o1+" ("+b+" "+o2+" "+c+")")
+						for _, d := range []string{"2", "0.5", "int(value)"} {
+							for _, o3 := range ops {
+								exprs = append(exprs, "(("+a+" "+o1+" "+b+") "+o2+" "+c+") "+o3+" "+d, "("+a+" "+o1+" "+b+") "+o2+" ("+c+" "+o3+" "+d+")")
+								exprs = append(exprs, "("+a+" "+o1+" ("+b+" "+o2+" "+c+")) "+o3+" "+d, a+" "+o1+" (("+b+" "+o2+" "+c+") "+o3+" "+d+")")
+							}
+						}
+					}
+				}
+			}
+		}
+	}
+	show := func(v any) string {
+		if f, ok := v.(float64); ok && f == 0 {
+			v = 0.0 // -0 and 0 are the same number
+		}
+		return fmt.Sprintf("%T:%v", v, v)
+	}
+	pairs := []KVPair{NewKVP([]byte("a"), []byte("0")), NewKVP([]byte("b"), []byte("1")), NewKVP([]byte("c"), []byte("7")), NewKVP([]byte("d"), []byte("-3")), NewKVP([]byte("e"), []byte("16"))}
+	bad := 0
+	exact := func(src string) bool {
+		// keep float arithmetic exact (the property's domain): divide by 2 or 0.5 only
+		for i := 0; i+2 < len(src); i++ {
+			if src[i] == '/' && !strings.HasPrefix(src[i+2:], "2") && !strings.HasPrefix(src[i+2:], "0.5") {
+				return false
+			}
+		}
+		return true
+	}
+	for _, src := range exprs {
+		if !exact(src) {
+			continue
+		}
+		q := "select " + src + " where true = true"
+		orig, _, err := BuildExecutor(q)
+		if err != nil {
+			continue // statically rejected (e.g. division by the literal zero)
+		}
+		again, _, _ := BuildExecutor(q)
+		eo := ExpressionOptimizer{Root: again.Fields[0]}
+		rewritten := eo.Optimize()
+		for _, kv := range pairs {
+			want, err := orig.Fields[0].Execute(kv, nil)
+			if err != nil {
+				continue
+			}
+			got, err := rewritten.Execute(kv, nil)
+			if err != nil || show(got) != show(want) {
+				bad++
+				if bad <= 5 {
+					t.Errorf("%q on value %s: original gives %s, rewritten %s gives %v %v", src, kv.Value, show(want), rewritten, got, err)
+				}
+			}
+		}
+	}
+	if bad > 5 {
+		t.Errorf("... %d mismatches in all (%d expressions)", bad, len(exprs))
+	}
+	t.Logf("%d expressions x %d pairs", len(exprs), len(pairs))
+}
